@@ -10,9 +10,13 @@ lines = ["# Sensitivity: seeded changes and which check catches them", "",
          "worktree (`tools/import_seed.py`, recorded in each `meta.json`). `tools/run_seeded.py` applies the patch to a scratch",
          "worktree of /repo HEAD and runs the property's registered quick check with `VERIF_REPO` pointing at it; CAUGHT = exit 1",
          "with a VIOLATION line. Patches that no longer applied after a `fix:` commit were re-based (original kept as",
-         "`patch.orig-d5e6607.diff`); C12-2 had been neutralised by fix 77caf72 and was re-based so that it manifests again.", "",
+         "`patch.orig-*.diff`); C12-2 had been neutralised by fix 77caf72 and was re-based so that it manifests again.",
+         "Rounds: plain names = round 1, `-r2-` = round 2 (helpers, less-travelled branches, cooperating edits), `-r3-` = round 3",
+         "(changes designed to be overlooked by a generated-input checker). A row whose result names two checks was run against both", 
+         "(`check_with` in its meta.json, with the reason).", "",
          "| seeded | property | what was changed | needs to manifest | result | s | buckets reported |", "|---|---|---|---|---|---|---|"]
 n = c = 0
+ood = []
 for name in sorted(res):
     d = os.path.join(V, "seeded", name)
     if not os.path.isdir(d):
@@ -24,8 +28,13 @@ for name in sorted(res):
     def cell(s, k=170):
         s = " ".join(str(s).split()).replace("|", "\\|")
         return s if len(s) <= k else s[:k - 1] + "…"
+    verdict = "CAUGHT" if r["caught"] else ("not caught - outside the property's domain: " + cell(m["out_of_domain"], 400) if m.get("out_of_domain") else "MISSED")
+    if not r["caught"] and m.get("out_of_domain"):
+        ood.append(name)
+    by = r["result"] if len(m.get("check_with", [])) > 1 else ""
     lines.append("| %s | %s | %s | %s | %s | %s | %s |" % (name, m["property"], cell(m.get("summary", "")), cell(m.get("needs_to_manifest", "")),
-                 "CAUGHT" if r["caught"] else "MISSED", r["seconds"], cell(", ".join(r["buckets"]), 120)))
-lines += ["", "%d of %d seeded changes are caught by the quick tier (seed %s, /repo at %s)." % (c, n, next(iter(res.values()))["seed"], next(iter(res.values()))["repo_head"]), ""]
+                 verdict + (" (" + by + ")" if by else ""), r["seconds"], cell(", ".join(r["buckets"]), 120)))
+lines += ["", "%d of %d seeded changes are caught by the quick tier (seed %s, /repo at %s); %d are not caught and judged outside the property's stated domain (%s); %d are missed inside the domain." % (
+    c, n, next(iter(res.values()))["seed"], next(iter(res.values()))["repo_head"], len(ood), ", ".join(ood) or "-", n - c - len(ood)), ""]
 open(os.path.join(V, "SENSITIVITY.md"), "w").write("\n".join(lines))
 print(c, "of", n)
